@@ -27,15 +27,15 @@ func runC13(c *Ctx) {
 func ruleFreshConn(c *Ctx) {
 	rid := "R13.a"
 	c.rule(rid, "the Conn served by the connection loop is the result of the constructor called in that activation; the constructor returns a fresh heap allocation whose database id is constant 0, authorisation false, credentials empty and user-data map a zero sync.Map")
-	nc := c.P.PkgFunc(pkgRedis, "newConnWith")
-	if !c.anchor(rid, nc, "redis.newConnWith") {
+	nc := c.P.connConstructor()
+	if !c.anchor(rid, nc, "the constructor of redis.Conn") {
 		return
 	}
 	for i, r := range returnsOf(nc) {
 		v := strip(retOperand(r, 0))
 		al, ok := v.(*ssa.Alloc)
 		if !ok || !al.Heap {
-			c.bad(rid, fmt.Sprintf("newConnWith/return#%d", i), c.P.instrPos(r), "the connection object is not a fresh allocation ("+describeValue(v)+"): a recycled or shared object carries another connection's database, authorisation or user data")
+			c.bad(rid, fmt.Sprintf("conn-constructor/return#%d", i), c.P.instrPos(r), "the connection object is not a fresh allocation ("+describeValue(v)+"): a recycled or shared object carries another connection's database, authorisation or user data")
 			continue
 		}
 		init := map[string]ssa.Value{}
@@ -70,7 +70,7 @@ func ruleFreshConn(c *Ctx) {
 				}
 			}
 		}
-		c.check(okInit, rid, fmt.Sprintf("newConnWith/return#%d", i), c.P.instrPos(r), "fresh allocation with default per-connection state", why)
+		c.check(okInit, rid, fmt.Sprintf("conn-constructor/return#%d", i), c.P.instrPos(r), "fresh allocation with default per-connection state", why)
 	}
 	for _, cl := range c.P.connLoops() {
 		if cl.Handle == nil {
